@@ -175,15 +175,23 @@ __CPROVER_ensures(!nv_dbad) \
 __CPROVER_ensures(samples->has ? (nv_st == NV_ST_LEAF || nv_st == NV_ST_MISSING) : nv_st == NV_ST_NONE) \
 /* .3 the reported group: the table of the leaf reached (a row of m_tables), none for a missing value on the way */ \
 __CPROVER_ensures(nv_st == NV_ST_LEAF ? (nv_as_count == 1 && __CPROVER_return_value.g == nv_as_group && 0 <= nv_as_group && nv_as_group < self->m_tables.rows \
-   && self->m_nodes.p[nv_cur].m_next == 0 && 0 <= nv_cur_g && nv_cur_g <= 1 && 0 <= self->m_nodes.p[nv_cur].m_table && self->m_nodes.p[nv_cur].m_table <= NV_MAXN && nv_as_group == self->m_nodes.p[nv_cur].m_table + nv_cur_g) \
+   && nv_cur < self->m_nodes.n && self->m_nodes.p[nv_cur].m_next == 0 && 0 <= nv_cur_g && nv_cur_g <= 1 && 0 <= self->m_nodes.p[nv_cur].m_table \
+   && self->m_nodes.p[nv_cur].m_table <= NV_MAXN && nv_as_group == self->m_nodes.p[nv_cur].m_table + nv_cur_g) \
   : (nv_as_count == 0 && __CPROVER_return_value.g == -1)) \
 __CPROVER_ensures(nv_st == NV_ST_MISSING ==> nv_cur_g == -1) \
-/* .5 a tree of depth 1 is a stump: same comparison, tables in the same order */ \
+/* .5 a tree of depth 1 is a stump: one visit, at the root pair, same comparison (with .3: table m_table(root) + side) */ \
 __CPROVER_ensures((samples->has && NV_ROOT(self).m_next == 0) ==> (NV_ISFIN(nv_v0) \
-   ? (nv_st == NV_ST_LEAF && nv_as_group == NV_ROOT(self).m_table + NV_STUMP_GROUP(nv_v0, NV_ROOT(self).m_threshold)) : nv_st == NV_ST_MISSING)) \
+   ? (nv_st == NV_ST_LEAF && nv_cur == 0 && nv_cur_g == NV_STUMP_GROUP(nv_v0, NV_ROOT(self).m_threshold)) : nv_st == NV_ST_MISSING)) \
 /* .6 the cluster covers the dataset; .7 one group per leaf table (as for every other learner: cluster.groups() == tables.size<0>()) */ \
 __CPROVER_ensures(__CPROVER_return_value.samples == dataset->samples) \
-__CPROVER_ensures(__CPROVER_return_value.groups == self->m_tables.rows)
+NV_DT_GROUPS_CLAUSE
+/* clause .7 is REFUTED on the current library (do_split builds the cluster with m_tables.size() groups, the number of
+ * coefficients, see replay/C10_replay.cpp): where do_split is used by its contract (do_predict) the clause is left out */
+#ifdef NV_DTREE_CALLER
+#define NV_DT_GROUPS_CLAUSE
+#else
+#define NV_DT_GROUPS_CLAUSE __CPROVER_ensures(__CPROVER_return_value.groups == self->m_tables.rows)
+#endif
 
 /* loop 1: the breadth-first walk (termination rests on the acyclicity of m_next and is not claimed) */
 #define NV_LOOP_dtree_do_split_1 \
@@ -219,3 +227,55 @@ __CPROVER_loop_invariant((group > node_cluster.g && node_cluster.g >= 0) ==> (nv
    && splits.new_pos == __CPROVER_loop_entry(splits.n) + (uint64_t)node_cluster.g && splits.new_first == nv_exp \
    && nv_exp == self->m_nodes.p[split.first + (uint64_t)node_cluster.g].m_next)) \
 __CPROVER_decreases(node_cluster.groups - group)
+
+/* ================================================================================================ do_predict
+ * split(dataset, samples) [wlearner_t::split: compatibility check (may throw), then the virtual do_split: extracted, the
+ * tree's do_split by the contract above], then row i of outputs += m_tables row cluster.group(samples(i)).
+ * Followed: the position nv_g of `samples`; the ghost sample is the one at that position. */
+_Bool nv_compat_calls;
+static void nv_critical_compatible(const struct nv_dtree* self, const struct nv_dataset* d)      /* ASSUMED: throws or returns, nothing else */
+{ nv_compat_calls = 1; if (nv_nondet__Bool()) nv_thrown = 1; }
+/* ASSUMED: indices_t(indices_cmap_t) copies the indices: the copy contains the sample at position nv_g */
+static struct nv_ixs nv_ixs_of(struct nv_t1i s)
+{ struct nv_ixs r; r.has = (0 <= nv_g && nv_g < s.n && s.p[nv_g] == nv_s) ? 1 : nv_nondet__Bool(); return r; }
+/* cluster.group(sample) on the cluster returned by split(): the ghost sample has the group proved for it; any other
+ * sample is a valid dataset sample (caller's precondition, instantiated here) and has no group or the table of a leaf
+ * (dtree_do_split.postcondition.3 instantiated at that sample) */
+static int64_t nv_clu_group_split(const struct nv_clu* c, int64_t sample, const struct nv_dtree* self)
+{
+  if (sample == nv_s)
+  {
+    __CPROVER_assert(0 <= sample && sample < c->samples, "cluster.group(sample): sample in range");
+    return c->g;
+  }
+  int64_t g = nv_nondet_int64_t(); __CPROVER_assume(-1 <= g && g < self->m_tables.rows); return g;
+}
+/* Eigen `dst += src` on row views: recorded for the followed row */
+static void nv_row_add_at(const struct nv_row* dst, struct nv_row src)
+{ if (dst->row == nv_g) { nv_add_count = nv_add_count + 1; nv_add_dst = *dst; nv_add_src = src; } }
+
+#define NV_CONTRACT_base_split \
+__CPROVER_requires(__CPROVER_is_fresh(self, sizeof(*self)) && __CPROVER_is_fresh(dataset, sizeof(*dataset)) && __CPROVER_is_fresh(samples, sizeof(*samples)))
+#define NV_CONTRACT_dtree_do_predict \
+__CPROVER_requires(NV_DTREE_OK(self) && __CPROVER_is_fresh(dataset, sizeof(*dataset)) && NV_T1I_OK(samples) && outputs.rows == samples.n && outputs.id != self->m_tables.id) \
+/* samples index valid dataset samples (learner_t::predict); the ghost sample is the one at the followed position */ \
+__CPROVER_requires(0 <= nv_g && nv_g < samples.n && nv_s == samples.p[nv_g] && 0 <= nv_s && nv_s < dataset->samples && NV_IDENT(nv_v0, NV_VAL(NV_ROOT(self).m_feature))) \
+__CPROVER_requires(nv_st == NV_ST_NONE && nv_visits == 0 && nv_cur_g == -1 && !nv_dbad && nv_as_count == 0 && nv_add_count == 0 && !nv_compat_calls) \
+__CPROVER_assigns(NV_DT_GHOST, nv_add_count, nv_add_dst, nv_add_src, nv_compat_calls, nv_thrown) \
+__CPROVER_ensures(nv_compat_calls) \
+/* .2 the walk of the sample ended; .3 at a leaf => exactly one update of its row with that leaf's table */ \
+__CPROVER_ensures(nv_thrown || (!nv_dbad && (nv_st == NV_ST_LEAF || nv_st == NV_ST_MISSING))) \
+__CPROVER_ensures((!nv_thrown && nv_st == NV_ST_LEAF) ==> (nv_add_count == 1 && nv_add_dst.tensor == outputs.id && nv_add_dst.row == nv_g \
+   && nv_add_src.tensor == self->m_tables.id && nv_add_src.row == nv_as_group && nv_cur < self->m_nodes.n && self->m_nodes.p[nv_cur].m_next == 0 \
+   && 0 <= nv_cur_g && nv_cur_g <= 1 && 0 <= self->m_nodes.p[nv_cur].m_table && self->m_nodes.p[nv_cur].m_table <= NV_MAXN \
+   && nv_as_group == self->m_nodes.p[nv_cur].m_table + nv_cur_g)) \
+/* .4 a missing value on the way (or an incompatible dataset) => no update */ \
+__CPROVER_ensures((nv_thrown || nv_st != NV_ST_LEAF) ==> nv_add_count == 0) \
+/* .5 depth 1 = the contract of stump_do_predict (stump.h) for tables stored in stump order (m_table of the root pair = 0) */ \
+__CPROVER_ensures((!nv_thrown && NV_ROOT(self).m_next == 0) ==> (NV_ISFIN(nv_v0) \
+   ? (nv_add_count == 1 && nv_cur == 0 && nv_add_src.row == NV_ROOT(self).m_table + NV_STUMP_GROUP(nv_v0, NV_ROOT(self).m_threshold)) : nv_add_count == 0))
+#define NV_LOOP_dtree_do_predict_1 \
+__CPROVER_assigns(i, nv_add_count, nv_add_dst, nv_add_src) \
+__CPROVER_loop_invariant(0 <= i && i <= size && size == samples.n && nv_add_count == ((i > nv_g && cluster.g >= 0) ? 1 : 0)) \
+__CPROVER_loop_invariant(nv_add_count == 1 ==> (nv_add_dst.tensor == outputs.id && nv_add_dst.row == nv_g && nv_add_src.tensor == self->m_tables.id && nv_add_src.row == cluster.g)) \
+__CPROVER_decreases(size - i)
